@@ -329,6 +329,9 @@ type Summary struct {
 	Bytes      int            `json:"bytes"`
 	MaxLen     int            `json:"max_len"`
 	Violations []Violation    `json:"violations"`
+	Dropped    int            `json:"violations_dropped"`
+	Written    int            `json:"units_written"`
+	WriteErr   string         `json:"write_error"`
 	ObsSkipped map[string]int `json:"obs_skipped"`
 	Seconds    float64        `json:"seconds"`
 	CPUSeconds float64        `json:"cpu_seconds"`
@@ -415,8 +418,10 @@ func cmdSearch(args []string) string {
 		res := runOne(src, obs, sum.ObsSkipped, time.Second)
 		if res.Violation != "" {
 			sum.Outcomes["VIOLATION:"+res.Violation]++
-			if len(sum.Violations) < 20 {
+			if len(sum.Violations) < 400 && len(src) <= 16384 || len(sum.Violations) < 20 {
 				sum.Violations = append(sum.Violations, Violation{res.Violation, res.Detail, src, class, i})
+			} else {
+				sum.Dropped++
 			}
 		} else {
 			sum.Outcomes[res.Outcome]++
@@ -429,7 +434,10 @@ func cmdSearch(args []string) string {
 				continue
 			}
 			seenUnit[u] = true
-			fmt.Fprintf(dw, "%d %d %s %s\n", i, ui, res.unitKinds[ui], u)
+			if _, err := fmt.Fprintf(dw, "%d %d %s %s\n", i, ui, res.unitKinds[ui], u); err != nil && sum.WriteErr == "" {
+				sum.WriteErr = err.Error()
+			}
+			sum.Written++
 			if !wroteSrc {
 				b, _ := json.Marshal(map[string]interface{}{"id": i, "class": class, "src": src})
 				sw.Write(b)
@@ -453,6 +461,12 @@ func cmdSearch(args []string) string {
 	}
 	ow.Flush()
 	of.Close()
+	if err := dw.Flush(); err != nil && sum.WriteErr == "" {
+		sum.WriteErr = err.Error()
+	}
+	if err := sw.Flush(); err != nil && sum.WriteErr == "" {
+		sum.WriteErr = err.Error()
+	}
 	sum.Seconds = time.Since(t0).Seconds()
 	sum.CPUSeconds = cpuSeconds() - cpu0
 	b, _ := json.Marshal(sum)
